@@ -712,10 +712,41 @@ def run_verus(lines, workdir, name, rlimit=30, threads=8, extra=(), wall=None):
             failures.append(rec)
         else:
             others.append(rec)
+    # Isolation pass: Verus sends the queries of several functions to the same solver process, and the extra queries it issues to
+    # localise one failure change the solver state seen by the functions verified after it (observed: a pure lemma of unit graphlike
+    # "failed" in the same run as a genuinely failing `adjoint`, and verified alone under every seed).  Every function reported as
+    # failing or over its resource limit is therefore re-verified ALONE in a fresh process (--verify-function) before it is reported:
+    # a failure that does not reproduce there was discharged by the verifier and is dropped (listed under `isolated_ok`).
+    res['isolated_ok'] = []
+    if (failures or rlimits) and not others and vr and '--verify-function' not in extra and not os.environ.get('VERIF_NO_ISOLATE'):
+        bare = lambda fn: (fn or '').split('::')[-1]
+        names = sorted({bare(r['function']) for r in failures + rlimits if r['function']})
+        if 0 < len(names) <= 12:
+            for nm in names:
+                sub = run_verus(lines, workdir, name + '__iso', rlimit=rlimit, threads=threads,
+                                extra=(*extra, '--verify-root', '--verify-function', '*' + nm), wall=wall)
+                if sub.get('other_errors') or sub.get('status') == 'undecided' and not sub.get('rlimit'):
+                    continue        # the isolated run itself did not work: keep what the full run said
+                again = [r for r in sub.get('failures', []) + sub.get('rlimit', []) if bare(r['function']) == nm]
+                failures = [r for r in failures if bare(r['function']) != nm] + [r for r in sub.get('failures', []) if bare(r['function']) == nm]
+                rlimits = [r for r in rlimits if bare(r['function']) != nm] + [r for r in sub.get('rlimit', []) if bare(r['function']) == nm]
+                if not again:
+                    res['isolated_ok'].append(nm)
+            try:
+                os.remove(os.path.join(workdir, name + '__iso.rs'))
+            except OSError:
+                pass
+            res['wall_s'] = round(time.time() - t0, 2)
     res['failures'] = failures
     res['rlimit'] = rlimits
     res['other_errors'] = others
-    if vr.get('success') and p.returncode == 0:
+    if res['isolated_ok'] and not failures and not rlimits and not others and vr:
+        res['status'] = 'verified'
+        res['verified'] = res['verified'] + res['errors']
+        res['errors'] = 0
+        res['file'] = f
+        return res
+    if (vr.get('success') or ('--verify-function' in extra and vr and not vr.get('errors') and not failures and not rlimits and not others)) and p.returncode == 0:
         res['status'] = 'verified'
     elif others or not vr or vr.get('encountered-vir-error'):
         res['status'] = 'undecided'
